@@ -31,6 +31,8 @@ SameRamp(s, t) == t.init = s.init /\ t.future = s.future /\ t.start = s.start /\
 StateChecks(t) ==
   << <<"C04.solvent.balance>=reserves+owed-fees", \A n \in Idx : (t.res[n] ++ t.fee[n]) \preceq t.bal[n]>>,
      <<"C04.amp.within-[min,max]", MIN_AMP \preceq AmpNow(t) /\ AmpNow(t) \preceq MAX_AMP>>,
+     <<"C18.amp.stored-ramp-within-[1,10^6]",
+        MIN_AMP \preceq t.init /\ t.init \preceq MAX_AMP /\ MIN_AMP \preceq t.future /\ t.future \preceq MAX_AMP>>,
      <<"C04.amp.between-start-and-target",
         IF t.init \preceq t.future THEN t.init \preceq AmpNow(t) /\ AmpNow(t) \preceq t.future
         ELSE t.future \preceq AmpNow(t) /\ AmpNow(t) \preceq t.init>> >>
@@ -43,6 +45,7 @@ RampChecks(s, byOwner, fa, fb, ok, t) ==
      \* the new ramp starts at the amplification in force now, so the effective value never jumps
      <<"C04.ramp.starts-from-the-effective-amp-now", ok => t = RampNext(s, fa, fb)>>,
      <<"C04.ramp.rejected-leaves-the-ramp-unchanged", ~ok => SameRamp(s, t)>>,
+     <<"C18.amp.rejected-ramp-changes-nothing", ~ok => (SameRamp(s, t) /\ SamePool(s, t))>>,
      <<"C04.ramp.pool-untouched", SamePool(s, t)>>,
      <<"drift.ramp.only-the-owner", ok => byOwner>>,
      <<"drift.ramp.allowed-ramp-is-accepted", (byOwner /\ RampOk(s, fa, fb)) => ok>> >>
